@@ -142,8 +142,11 @@ def log(msg):
 def exe_for(part, built):
     key = (part["variant"], bool(part.get("complex")))
     if key not in built:
-        only = ["c06_omp_tsan"] if part["variant"] == "tsan" else None   # fibers are not annotated for TSan: only the inline single-rank harness is built there
-        built[key] = buildmod.build(part["variant"], None, only, bool(part.get("complex")), verbose=True)
+        built[key] = {}
+    if part["harness"] not in built[key]:
+        # only the harness this part needs is compiled: a change of /repo that one harness cannot be compiled against (e.g. a
+        # changed internal API of the dispatcher) must not take the checks of the other properties down with it
+        built[key].update(buildmod.build(part["variant"], None, [part["harness"]], bool(part.get("complex")), verbose=True))
     return built[key].get(part["harness"])
 
 
